@@ -131,8 +131,13 @@ class _OrbitCorrectionService(_DynamicsServiceBase):
         if options is None:
             options = self.correction_options
         
-        # Cache key based on options
-        cache_key = self.make_key("correct", tuple(sorted(options.to_dict().items())))
+        # Cache key based on options and on the state the correction starts from
+        cache_key = self.make_key(
+            "correct",
+            tuple(np.asarray(self.domain_obj.initial_state, dtype=float).tolist()),
+            self.domain_obj.period,
+            tuple(sorted(options.to_dict().items())),
+        )
 
         def _factory() -> tuple[np.ndarray, float, OrbitCorrectionDomainPayload, "CorrectionResult"]:
             result = self.corrector.correct(self.domain_obj, options=options)
@@ -274,8 +279,13 @@ class _OrbitContinuationService(_DynamicsServiceBase):
         if options is None:
             options = self.continuation_options
         
-        # Cache key based on options
-        cache_key = self.make_key("generate", tuple(sorted(options.to_dict().items())))
+        # Cache key based on options and on the seed orbit's current state
+        cache_key = self.make_key(
+            "generate",
+            tuple(np.asarray(self.domain_obj.initial_state, dtype=float).tolist()),
+            self.domain_obj.period,
+            tuple(sorted(options.to_dict().items())),
+        )
 
         def _factory() -> ContinuationDomainPayload:
             result = self.generator.generate(self.domain_obj, options)
